@@ -82,6 +82,9 @@ def gen_case(rng, kind):
             for i, cell in enumerate(row):
                 if i < len(widths) and len(cell) < widths[i] and rng.random() < 0.3:
                     row[i] = cell + " " * rng.randint(1, widths[i] - len(cell))
+                elif i < len(widths) and 0 < len(cell) <= widths[i] and rng.random() < 0.06:
+                    # ... but a value that is wider than its field - if only by blanks - does not fit the field
+                    row[i] = cell + " " * (widths[i] - len(cell) + rng.randint(1, 3))
         # wrong item counts are possible through the writer API even for fixed data
         if data_rows and rng.random() < 0.3:
             k = rng.randrange(len(data_rows))
